@@ -136,6 +136,7 @@ def partitions(n):
 
 def r3_multi_borrow(ctx):
     from absint import Interp, Sym, Agg, TOP, some, NONE, std_oracle, chain
+    from collmodel import coll_oracle, install as cm_install
     F = ctx.facts
     # inventory of user-written unsafe in the state module
     user = [u for u in F.unsafe_blocks if u["source"] == "UserProvided"]
@@ -168,26 +169,17 @@ def r3_multi_borrow(ctx):
                 if k == "better_any::Tid::id":
                     g = (f.get("gargs") or ["?"])[0]
                     return Sym("id:%s" % cls.get(g, g))
-                if k == "std::collections::hash::set::HashSet::new":
-                    interp.mstate["set"] = frozenset()
-                    return Sym("set")
-                if k == "std::collections::hash::set::HashSet::insert":
-                    s = interp.mstate.get("set", frozenset())
-                    v = args[1]
-                    fresh = v not in s
-                    interp.mstate["set"] = s | {v}
-                    return fresh
                 if k == R + "get_mut":
                     g = (f.get("gargs") or ["?"])[0]
                     return some(Sym("mut:" + g))
                 return TOP
 
             inl = lambda k: k.endswith("MultiStateTuple>::distinct") or k.startswith("mahf::state::registry::error::")
-            ps = Interp(dist.body, chain(oracle, std_oracle), [], facts=F, inline=inl).run()
+            ps = cm_install(Interp(dist.body, chain(oracle, coll_oracle, std_oracle), [], facts=F, inline=inl)).run()
             rets = {p.ret for p in ps if p.end == "return"}
             if rets != {all_distinct} or any(p.end != "return" for p in ps):
                 bad_d.append((part, rets))
-            ps = Interp(tg.body, chain(oracle, std_oracle), [Sym("registry")], facts=F, inline=inl).run()
+            ps = cm_install(Interp(tg.body, chain(oracle, coll_oracle, std_oracle), [Sym("registry")], facts=F, inline=inl)).run()
             for p in ps:
                 gm = [e.data[1][0] for e in p.events if e.kind == "call" and e.data[0] == R + "get_mut"]
                 if not all_distinct:
@@ -210,19 +202,11 @@ def r3_multi_borrow(ctx):
             k = f.get("key", "")
             if k == "better_any::Tid::id":
                 return Sym("id:%s" % (f.get("gargs") or ["?"])[0])
-            if k == "std::collections::hash::set::HashSet::new":
-                interp.mstate["set"] = frozenset()
-                return Sym("set")
-            if k == "std::collections::hash::set::HashSet::insert":
-                s = interp.mstate.get("set", frozenset())
-                fresh = args[1] not in s
-                interp.mstate["set"] = s | {args[1]}
-                return fresh
             if k == R + "get_mut":
                 g = (f.get("gargs") or ["?"])[0]
                 return NONE if g == tparams[-1] else some(Sym("mut:" + g))
             return TOP
-        ps = Interp(tg.body, chain(oracle2, std_oracle), [Sym("registry")], facts=F, inline=inl).run()
+        ps = cm_install(Interp(tg.body, chain(oracle2, coll_oracle, std_oracle), [Sym("registry")], facts=F, inline=inl)).run()
         good = all(p.end == "return" and isinstance(p.ret, Agg) and p.ret.variant == "Err" and isinstance(p.ret.fields[0], Agg) and p.ret.fields[0].variant == "NotFound" for p in ps) and ps
         ctx.check(good, "C02.R3", tg.key, "missing-is-not-found", "a tuple with an absent type does not yield Err(NotFound)", loc=tg.loc())
     ctx.count("type_equality_patterns_evaluated", total)
